@@ -389,6 +389,8 @@ func (s *script) event() bool {
 
 var issChoices = []uint32{0, 1, 0x7fffff00, 0x7ffffff0, 0x7fffffff, 0x80000000, 0xffffff00, 0xfffffff0, 0xffffffff, 12345678}
 
+var wrapOnly bool
+
 func runScript(seed uint64, idx int, mix string, nev int, kinds map[string]int) (string, error) {
 	r := gen.New(seed*1000003 + uint64(idx))
 	cfg := tcpx.Cfg{PeerWnd: 30000, PeerWS: -1}
@@ -424,7 +426,16 @@ func runScript(seed uint64, idx int, mix string, nev int, kinds map[string]int) 
 	if cfg.RcvBuf > 0 {
 		effRcv = uint32(cfg.RcvBuf)
 	}
-	switch r.Intn(8) {
+	wsel := r.Intn(8)
+	if wrapOnly {
+		// C14's TCP corollary: every script places a window edge or the stream across 2^32 / 2^31
+		wsel = r.Intn(6)
+		if wsel >= 4 {
+			near := []uint32{0x7fffff00, 0x7ffffff0, 0x7fffffff, 0xffffff00, 0xfffffff0, 0xffffffff}
+			cfg.ISS, cfg.IRS = near[r.Intn(len(near))], near[r.Intn(len(near))]
+		}
+	}
+	switch wsel {
 	case 0:
 		cfg.IRS = -effRcv - 1 - uint32(r.Intn(900))
 	case 1:
@@ -470,6 +481,7 @@ func main() {
 	n := flag.Int("n", 50, "number of scripts")
 	mix := flag.String("mix", "c01", "event mix: c01 c02 c04 c05, or a comma-separated list used round robin")
 	nev := flag.Int("events", 30, "events per script")
+	flag.BoolVar(&wrapOnly, "wrap", false, "only wrap-adjacent placements of ISS/IRS and window edges")
 	flag.Parse()
 	w := bufio.NewWriter(os.Stdout)
 	defer w.Flush()
